@@ -59,15 +59,19 @@ class Block:
         :type network: str, Network
         """
 
-        self.block_hash = to_bytes(block_hash)
+        # Raw header fields of the expected size are taken as they are: only text is converted from hexadecimal
+        def _field(value, size):
+            return value if isinstance(value, bytes) and len(value) == size else to_bytes(value)
+
+        self.block_hash = _field(block_hash, 32)
         if isinstance(version, int):
             self.version = version.to_bytes(4, byteorder='big')
             self.version_int = version
         else:
-            self.version = to_bytes(version)
+            self.version = _field(version, 4)
             self.version_int = 0 if not self.version else int.from_bytes(self.version, 'big')
-        self.prev_block = to_bytes(prev_block)
-        self.merkle_root = to_bytes(merkle_root)
+        self.prev_block = _field(prev_block, 32)
+        self.merkle_root = _field(merkle_root, 32)
         self.time = time
         if not isinstance(time, int):
             self.time = int.from_bytes(time, 'big')
@@ -75,13 +79,13 @@ class Block:
             self.bits = bits.to_bytes(4, 'big')
             self.bits_int = bits
         else:
-            self.bits = to_bytes(bits)
+            self.bits = _field(bits, 4)
             self.bits_int = 0 if not self.bits else int.from_bytes(self.bits, 'big')
         if isinstance(nonce, int):
             self.nonce = nonce.to_bytes(4, 'big')
             self.nonce_int = nonce
         else:
-            self.nonce = to_bytes(nonce)
+            self.nonce = _field(nonce, 4)
             self.nonce_int = 0 if not self.nonce else int.from_bytes(self.nonce, 'big')
         self.transactions = transactions
         self.transactions_dict = []
